@@ -66,6 +66,9 @@ type RigOpts struct {
 	// QuietTail installs an exception handler at the end that closes the channel
 	// like the tail would, but without writing to stderr.
 	QuietTail bool
+	// Factory, if set, is used instead of a fresh factory for Mode/Queue (several channels of one
+	// factory value, the way a Bootstrap creates all of its channels).
+	Factory netty.ChannelFactory
 }
 
 // Rig is a real channel built around the recording seams.
@@ -155,6 +158,9 @@ func NewRig(o RigOpts) *Rig {
 		f = netty.NewAsyncWriteChannel(o.Queue, true)
 	default:
 		f = netty.NewAsyncWriteChannel(o.Queue, false)
+	}
+	if o.Factory != nil {
+		f = o.Factory
 	}
 	ctx := o.Ctx
 	if ctx == nil {
